@@ -74,6 +74,10 @@ class Hierarchy:
         self._anc[name] = {name, 'Exception', 'BaseException'}
         out = {name}
         b = getattr(builtins, name, None)
+        c0 = self.classes.get(name)
+        if c0 is not None and c0.module.relpath.endswith('_exceptions.py'):
+            # pywbem's own ConnectionError/TimeoutError shadow the builtins
+            b = None
         if isinstance(b, type) and issubclass(b, BaseException):
             out |= {k.__name__ for k in b.__mro__ if k is not object}
         elif name in self.classes:
@@ -301,6 +305,10 @@ class EscapeAnalysis:
     def exc_classes_of_expr(self, func, e, caught, depth=0):
         """Exception class names an expression evaluates to (for raise)."""
         if isinstance(e, ast.Call):
+            if isinstance(e.func, ast.Attribute) and \
+                    e.func.attr == 'with_traceback':
+                return self.exc_classes_of_expr(func, e.func.value, caught,
+                                                depth)
             d = dotted(e.func)
             if d is not None:
                 simple = d.split('.')[-1]
@@ -388,7 +396,8 @@ class EscapeAnalysis:
                 k = const_str(n.slice)
                 if k is not None and self.key_receiver(n, func):
                     if facts is None:
-                        facts = self.facts(func).get(stmt, ((), ()))[0]
+                        facts, self._cur_trys = self.facts(func).get(
+                            stmt, ((), ()))
                     if not self._key_guarded(n, k, facts, node):
                         e = Esc('KeyError', 'key', func.file, func.qualname,
                                 norm(n), n.lineno)
@@ -402,6 +411,33 @@ class EscapeAnalysis:
         recv = norm(sub.value)
         from .cfg import expr_guards
         allfacts = list(facts) + list(expr_guards(root, sub))
+        # `if 'A' in d or 'B' in d: try: d['A'] except KeyError: d['B']`
+        for t, pol in allfacts:
+            if pol and isinstance(t, ast.BoolOp) and isinstance(t.op, ast.Or):
+                ds = set()
+                for v in t.values:
+                    if isinstance(v, ast.Compare) and len(v.ops) == 1 and \
+                            isinstance(v.ops[0], ast.In) and \
+                            norm(v.comparators[0]) == recv and \
+                            const_str(v.left) is not None:
+                        ds.add(const_str(v.left))
+                if key in ds and len(ds) == len(t.values):
+                    others = ds - {key}
+                    trys = getattr(self, '_cur_trys', ())
+                    in_try_body = any(part == 'body' and any(
+                        isinstance(h.type, ast.Name) and
+                        h.type.id == 'KeyError' for h in tr.handlers)
+                        for tr, part in trys)
+                    if in_try_body:
+                        return True      # the KeyError is handled
+                    for tr, part in trys:
+                        if part == 'handler' and all(any(
+                                isinstance(x, ast.Subscript) and
+                                norm(x.value) == recv and
+                                const_str(x.slice) == o
+                                for b in tr.body for x in ast.walk(b))
+                                for o in others) and len(ds) == 2:
+                            return True
         for t, pol in allfacts:
             if pol and isinstance(t, ast.Compare) and len(t.ops) == 1 and \
                     isinstance(t.ops[0], ast.In) and \
@@ -420,6 +456,10 @@ class EscapeAnalysis:
         # modelled primitives
         if d in ('int', 'float') and call.args:
             a = call.args[0]
+            if isinstance(a, ast.Starred) and d == 'int':
+                # int(*args): the argument may be a float (inf/nan)
+                _put(out, Esc('OverflowError', 'conv', func.file,
+                              func.qualname, norm(call), call.lineno))
             if not isinstance(a, ast.Constant):
                 guarded = False
                 if self.conv_guard is not None:
